@@ -1,6 +1,7 @@
 package rules
 
 import (
+	"go/types"
 	"go/token"
 	"sort"
 	"strings"
@@ -323,9 +324,22 @@ func checkC17(c *km.Ctx) {
 	// ---------- R-C17-2
 	var isInbound func(v ssa.Value) bool
 	inboundParam := map[*ssa.Parameter]int{}
+	// parameters of the entries of a rule table (functions called only through the table), bound to the values the
+	// filter hands to every entry
+	tableBound := map[*ssa.Parameter]ssa.Value{}
+	c17TableBound = tableBound
 	isInbound = func(v ssa.Value) bool {
+		// a variable kept in a cell because a closure captures it: the one value stored into it
+		if o := km.CellOrigin(km.Unwrap(v)); o != km.Unwrap(v) {
+			v = o
+		}
 		if derivesFromFormValue(v, "login_destination", 0) {
 			return true
+		}
+		if bp, isP := km.Unwrap(v).(*ssa.Parameter); isP {
+			if bv, has := tableBound[bp]; has {
+				return isInboundPathPartExact(bv, isInbound)
+			}
 		}
 		// the parameter of a pure filter helper: every caller hands it the inbound value
 		p, ok := km.Unwrap(v).(*ssa.Parameter)
@@ -400,7 +414,8 @@ func checkC17(c *km.Ctx) {
 			return false
 		}
 		if cs, isC := km.ConstString(cl.Common().Args[1]); isC {
-			if !strings.Contains(cs, "\\") {
+			// Contains looks for the whole string: only the single backslash finds every backslash
+			if (n == "strings.Contains" && cs != "\\") || !strings.Contains(cs, "\\") {
 				return false
 			}
 		} else if i, isI := km.ConstInt(cl.Common().Args[1]); !isI || i != '\\' {
@@ -486,7 +501,7 @@ func checkC17(c *km.Ctx) {
 				if resultIsConstOn(k, v) {
 					return true
 				}
-				return s.Holds(k, p)
+				return s.Holds(ruleTableFacts(c, s, k, tableBound), p)
 			})
 			if !ok {
 				missing = append(missing, p.Name)
@@ -561,11 +576,28 @@ func derivesFromFormValue(v ssa.Value, key string, depth int) bool {
 }
 
 // isInboundPathPart: the inbound value, or the inbound value cut at the first '?'/'#' (phi of both)
+// c17TableBound mirrors checkC17's tableBound for isInboundPathPart.
+var c17TableBound map[*ssa.Parameter]ssa.Value
+
+// isInboundPathPartExact: v is the inbound value itself (not a part of it).
+func isInboundPathPartExact(v ssa.Value, isInbound func(ssa.Value) bool) bool {
+	v = km.Unwrap(v)
+	if _, isP := v.(*ssa.Parameter); isP {
+		return false
+	}
+	return isInbound(v)
+}
+
 func isInboundPathPart(v ssa.Value, isInbound func(ssa.Value) bool, depth int) bool {
 	if depth > 4 {
 		return false
 	}
 	v = km.Unwrap(v)
+	if bp, isP := v.(*ssa.Parameter); isP && c17TableBound != nil {
+		if bv, has := c17TableBound[bp]; has {
+			return isInboundPathPart(bv, isInbound, depth+1)
+		}
+	}
 	if isInbound(v) {
 		return true
 	}
@@ -607,4 +639,190 @@ func isInboundPathPart(v ssa.Value, isInbound func(ssa.Value) bool, depth int) b
 		}
 	}
 	return false
+}
+
+// ruleTableFacts: when k says that no entry of a package-level table of predicates accepted
+// (!slices.ContainsFunc(table, func(rule) bool { return rule.pred(x, y) })), every entry's predicate returned
+// false for (x, y): the comparison facts of each entry's false result are added to k, and the entries' parameters
+// are recorded in bound as standing for x and y. The table has to be a package-level slice assigned once in its
+// initialiser from a literal whose predicate fields are plain function literals. k is returned unchanged when the
+// shape is anything else.
+func ruleTableFacts(c *km.Ctx, s *km.Sem, k km.Conj, bound map[*ssa.Parameter]ssa.Value) km.Conj {
+	out := k
+	for _, f := range k.List() {
+		if f.Op != token.ILLEGAL || f.Pol {
+			continue
+		}
+		cl, ok := f.X.(*ssa.Call)
+		if !ok {
+			continue
+		}
+		name := km.CalleeFull(cl.Common())
+		if i := strings.Index(name, "["); i > 0 {
+			name = name[:i]
+		}
+		if name != "slices.ContainsFunc" || len(cl.Common().Args) != 2 {
+			continue
+		}
+		u, isU := km.Unwrap(cl.Common().Args[0]).(*ssa.UnOp)
+		mc, isMC := km.Unwrap(cl.Common().Args[1]).(*ssa.MakeClosure)
+		if !isU || !isMC {
+			continue
+		}
+		g, isG := u.X.(*ssa.Global)
+		h, isF := mc.Fn.(*ssa.Function)
+		if !isG || !isF || len(h.Params) != 1 {
+			continue
+		}
+		rcs := s.RetCases(h)
+		if len(rcs) != 1 {
+			continue
+		}
+		dyn, isCall := km.Unwrap(rcs[0].Results[0]).(*ssa.Call)
+		if !isCall || dyn.Common().IsInvoke() || km.StaticCallee(dyn.Common()) != nil {
+			continue
+		}
+		base, fld, isFld := km.FieldOfLoad(km.Unwrap(dyn.Common().Value))
+		if !isFld || km.CellOrigin(base) != ssa.Value(h.Params[0]) {
+			continue
+		}
+		// the operands handed to every entry, in the filter's frame
+		var operands []ssa.Value
+		okOps := true
+		for _, a := range dyn.Common().Args {
+			av := km.Unwrap(a)
+			if ld, isLd := av.(*ssa.UnOp); isLd {
+				av = ld.X
+			}
+			found := false
+			for fi, fv := range h.FreeVars {
+				if ssa.Value(fv) == av && fi < len(mc.Bindings) {
+					operands = append(operands, km.CellOrigin(mc.Bindings[fi]))
+					found = true
+				}
+			}
+			if !found {
+				okOps = false
+			}
+		}
+		if !okOps {
+			continue
+		}
+		elems, okT := globalSliceElemSyms(c, g)
+		if !okT {
+			continue
+		}
+		add := []km.Fact{}
+		good := true
+		for _, e := range elems {
+			if e == nil || e.Op != "struct" {
+				good = false
+				break
+			}
+			pf := e.Fields[fld]
+			if pf == nil || pf.Op != "val" {
+				good = false
+				break
+			}
+			var he *ssa.Function
+			switch x := pf.Val.(type) {
+			case *ssa.Function:
+				he = x
+			case *ssa.MakeClosure:
+				if len(x.Bindings) == 0 {
+					he, _ = x.Fn.(*ssa.Function)
+				}
+			}
+			if he == nil || he.Blocks == nil || len(he.Params) != len(operands) {
+				good = false
+				break
+			}
+			hr := s.RetCases(he)
+			if len(hr) != 1 {
+				good = false
+				break
+			}
+			for j, p := range he.Params {
+				bound[p] = operands[j]
+			}
+			add = append(add, c.F.CondFacts(km.Unwrap(hr[0].Results[0]), false)...)
+		}
+		if !good {
+			continue
+		}
+		for _, nf := range add {
+			out = out.With(nf)
+		}
+	}
+	return out
+}
+
+// globalSliceElemSyms: the elements (symbolically) of a package-level slice that is assigned once, in its package
+// initialiser, from a composite literal, and whose elements are never written afterwards.
+func globalSliceElemSyms(c *km.Ctx, g *ssa.Global) ([]*km.Sym, bool) {
+	st := singleStoreTo(c, g)
+	if st == nil || g.Pkg == nil || st.Parent() != g.Pkg.Func("init") {
+		return nil, false
+	}
+	for _, fn := range c.P.AllFuncs {
+		bad := false
+		km.Instrs(fn, func(in ssa.Instruction) {
+			if ia, ok := in.(*ssa.IndexAddr); ok {
+				if l, ok := km.Unwrap(ia.X).(*ssa.UnOp); ok && l.X == ssa.Value(g) {
+					for _, ref := range *ia.Referrers() {
+						switch ref.(type) {
+						case *ssa.Store:
+							bad = true
+						case *ssa.FieldAddr:
+							for _, r2 := range *ref.(*ssa.FieldAddr).Referrers() {
+								if _, isSt := r2.(*ssa.Store); isSt {
+									bad = true
+								}
+							}
+						}
+					}
+				}
+			}
+		})
+		if bad {
+			return nil, false
+		}
+	}
+	sl, ok := km.Unwrap(st.Val).(*ssa.Slice)
+	if !ok {
+		return nil, false
+	}
+	arr, ok := sl.X.(*ssa.Alloc)
+	if !ok {
+		return nil, false
+	}
+	at, ok := arr.Type().Underlying().(*types.Pointer).Elem().Underlying().(*types.Array)
+	if !ok {
+		return nil, false
+	}
+	out := make([]*km.Sym, at.Len())
+	for _, ref := range *arr.Referrers() {
+		ia, ok := ref.(*ssa.IndexAddr)
+		if !ok {
+			continue
+		}
+		i, ok := km.ConstInt(ia.Index)
+		if !ok || i < 0 || i >= at.Len() {
+			return nil, false
+		}
+		for _, r2 := range *ia.Referrers() {
+			if es, ok := r2.(*ssa.Store); ok && es.Addr == ssa.Value(ia) {
+				if out[i] != nil {
+					return nil, false
+				}
+				out[i] = km.SymOf(es.Val)
+			}
+		}
+	}
+	for _, e := range out {
+		if e == nil {
+			return nil, false
+		}
+	}
+	return out, len(out) > 0
 }
